@@ -537,3 +537,12 @@ Proof.
   - intros (c & H). apply cascade_init_ok in H. destruct H as (p & k & E & C & V & _). exists p. split; auto. exists k; auto.
   - intros (p & E & k & C & V). eexists. apply cascade_init_ok. exists p, k. repeat split; eauto.
 Qed.
+
+(* only packets with a public-key signature type (RSA, ECDSA, Ed25519) can have a chain: HMAC-,
+   digest- and unknown-type packets are never accepted *)
+Lemma chain_asymmetric w t p :
+  Chain w t p -> exists si, p_sig p = Some si /\ asymmetric (s_type si) = true.
+Proof.
+  intros H. inversion H; subst;
+    match goal with V : verifies _ _ p |- _ => destruct V as (_ & si & E & A & _); exists si; auto end.
+Qed.
